@@ -25,29 +25,31 @@ Record h2 := mkH2 {
   bclosed2 : bool;        (* request body closed *)
   donec2 : bool;          (* cs.donec closed *)
   pipe2 : bodyres;        (* the response body as the caller sees it *)
-  failed2 : bool          (* history: the peer reset the stream *)
+  failed2 : bool;         (* history: the peer reset the stream *)
+  rstall : bool           (* the request body's Read is blocked in the caller's reader and Close does not wake
+                             it (a plain io.Reader behind io.NopCloser): doRequest cannot react to an abort *)
 }.
 
 Inductive label2 :=
-| YAcquired | YHdrWritten | YHdrExpect | Y100 | YBodyWritten | YResp (b : bool) | YData | YEnd | YReadEOF | YPeerRst
+| YAcquired | YHdrWritten | YHdrExpect | Y100 | YReadStall | YReadResume | YBodyWritten | YResp (b : bool) | YData | YEnd | YReadEOF | YPeerRst
 | YCancel (c : cause)
 | JResp | JAbort | JCtx | JDone | JDoneCtx
 | KCtx | KAbort | KPeerEnd | KPipe | KCtxAbort.
 
 (* has_body: the request has a body (actualContentLength != 0) *)
-Definition init2 : h2 := mkH2 CSel DAcquire None None false false None false None false false BNone false.
+Definition init2 : h2 := mkH2 CSel DAcquire None None false false None false None false false BNone false false.
 
 Definition upd_c (s : h2) (c : cst2) : h2 :=
-  mkH2 c (d2 s) (ctx2 s) (abort2 s) (sent_hdr s) (sent_end s) (resp2 s) (peer_end s) (rst2 s) (bclosed2 s) (donec2 s) (pipe2 s) (failed2 s).
+  mkH2 c (d2 s) (ctx2 s) (abort2 s) (sent_hdr s) (sent_end s) (resp2 s) (peer_end s) (rst2 s) (bclosed2 s) (donec2 s) (pipe2 s) (failed2 s) (rstall s).
 Definition upd_d (s : h2) (d : dst2) (sh se : bool) : h2 :=
-  mkH2 (c2 s) d (ctx2 s) (abort2 s) sh se (resp2 s) (peer_end s) (rst2 s) (bclosed2 s) (donec2 s) (pipe2 s) (failed2 s).
+  mkH2 (c2 s) d (ctx2 s) (abort2 s) sh se (resp2 s) (peer_end s) (rst2 s) (bclosed2 s) (donec2 s) (pipe2 s) (failed2 s) (rstall s).
 Definition upd_pipe (s : h2) (p : bodyres) : h2 :=
-  mkH2 (c2 s) (d2 s) (ctx2 s) (abort2 s) (sent_hdr s) (sent_end s) (resp2 s) (peer_end s) (rst2 s) (bclosed2 s) (donec2 s) p (failed2 s).
+  mkH2 (c2 s) (d2 s) (ctx2 s) (abort2 s) (sent_hdr s) (sent_end s) (resp2 s) (peer_end s) (rst2 s) (bclosed2 s) (donec2 s) p (failed2 s) (rstall s).
 
 (* abortStreamLocked: the first abort wins; the request body is closed (by a goroutine we wait for) *)
 Definition abort_stream (has_body : bool) (e : err) (s : h2) : h2 :=
   mkH2 (c2 s) (d2 s) (ctx2 s) (match abort2 s with None => Some e | a => a end) (sent_hdr s) (sent_end s)
-       (resp2 s) (peer_end s) (rst2 s) (bclosed2 s || has_body) (donec2 s) (pipe2 s) (failed2 s).
+       (resp2 s) (peer_end s) (rst2 s) (bclosed2 s || has_body) (donec2 s) (pipe2 s) (failed2 s) (rstall s).
 
 (* cleanupWriteRequest(err).  Its last act, bufPipe.CloseWithError, is a step of its own (KPipe):
    the connection's read loop may still deliver END_STREAM (closing the pipe with io.EOF) between
@@ -59,11 +61,11 @@ Definition cleanup (has_body : bool) (fromPeer : bool) (e : option err) (s : h2)
       let s1 := abort_stream has_body x s in
       mkH2 (c2 s1) DExit (ctx2 s1) (abort2 s1) (sent_hdr s1) (sent_end s1) (resp2 s1) (peer_end s1)
            (if sent_hdr s1 && negb fromPeer then Some RstCancel else rst2 s1)
-           (bclosed2 s1 || has_body) true (pipe2 s1) (failed2 s1)
+           (bclosed2 s1 || has_body) true (pipe2 s1) (failed2 s1) (rstall s1)
   | None =>
       mkH2 (c2 s) DExit (ctx2 s) (abort2 s) (sent_hdr s) (sent_end s) (resp2 s) (peer_end s)
            (if sent_hdr s && negb (sent_end s) then Some RstNoError else rst2 s)
-           (bclosed2 s || has_body) true (pipe2 s) (failed2 s)
+           (bclosed2 s || has_body) true (pipe2 s) (failed2 s) (rstall s)
   end.
 
 (* handleResponseHeaders *)
@@ -86,15 +88,25 @@ Definition step2 (has_body : bool) (s : h2) (l : label2) : option h2 :=
       end
   | Y100 =>            (* 100 Continue (or the ExpectContinueTimeout) : the body is sent *)
       match d2 s, abort2 s with DExpect, None => Some (upd_d s DBody true false) | _, _ => None end
+  | YReadStall =>
+      match d2 s, rstall s with
+      | DBody, false => Some (mkH2 (c2 s) (d2 s) (ctx2 s) (abort2 s) (sent_hdr s) (sent_end s) (resp2 s) (peer_end s)
+                                   (rst2 s) (bclosed2 s) (donec2 s) (pipe2 s) (failed2 s) true)
+      | _, _ => None
+      end
+  | YReadResume =>
+      if rstall s then Some (mkH2 (c2 s) (d2 s) (ctx2 s) (abort2 s) (sent_hdr s) (sent_end s) (resp2 s) (peer_end s)
+                                  (rst2 s) (bclosed2 s) (donec2 s) (pipe2 s) (failed2 s) false)
+      else None
   | YBodyWritten =>
-      match d2 s, abort2 s with DBody, None => Some (upd_d s DWait true true) | _, _ => None end
+      match d2 s, abort2 s, rstall s with DBody, None, false => Some (upd_d s DWait true true) | _, _, _ => None end
   | YResp b =>
       match resp2 s, sent_hdr s, donec2 s with
       | None, true, false =>
           (* END_STREAM on the HEADERS frame is a step of its own (YEnd): the read loop closes
              respHeaderRecv first and peerClosed afterwards *)
           Some (mkH2 (c2 s) (d2 s) (ctx2 s) (abort2 s) (sent_hdr s) (sent_end s) (Some b) (peer_end s)
-                     (rst2 s) (bclosed2 s) (donec2 s) (pipe2 s) (failed2 s))
+                     (rst2 s) (bclosed2 s) (donec2 s) (pipe2 s) (failed2 s) (rstall s))
       | _, _, _ => None
       end
   | YData => match pipe2 s, peer_end s with BOpen, false => Some s | _, _ => None end
@@ -102,7 +114,7 @@ Definition step2 (has_body : bool) (s : h2) (l : label2) : option h2 :=
       match resp2 s, peer_end s, pipe2 s with
       | Some _, false, (BOpen | BNone) =>
           Some (mkH2 (c2 s) (d2 s) (ctx2 s) (abort2 s) (sent_hdr s) (sent_end s) (resp2 s) true
-                     (rst2 s) (bclosed2 s) (donec2 s) (pipe2 s) (failed2 s))
+                     (rst2 s) (bclosed2 s) (donec2 s) (pipe2 s) (failed2 s) (rstall s))
       | _, _, _ => None
       end
   | YReadEOF => match pipe2 s, peer_end s with BOpen, true => Some (upd_pipe s BEOF) | _, _ => None end
@@ -110,12 +122,12 @@ Definition step2 (has_body : bool) (s : h2) (l : label2) : option h2 :=
       if sent_hdr s && negb (donec2 s) && negb (peer_end s) then
         let s1 := abort_stream has_body EPeer s in
         Some (mkH2 (c2 s1) (d2 s1) (ctx2 s1) (abort2 s1) (sent_hdr s1) (sent_end s1) (resp2 s1) (peer_end s1)
-                   (rst2 s1) (bclosed2 s1) (donec2 s1) (match pipe2 s1 with BOpen => BErr EPeer | p => p end) true)
+                   (rst2 s1) (bclosed2 s1) (donec2 s1) (match pipe2 s1 with BOpen => BErr EPeer | p => p end) true (rstall s1))
       else None
   | YCancel c =>
       Some (match ctx2 s with
             | None => mkH2 (c2 s) (d2 s) (Some c) (abort2 s) (sent_hdr s) (sent_end s) (resp2 s) (peer_end s)
-                           (rst2 s) (bclosed2 s) (donec2 s) (pipe2 s) (failed2 s)
+                           (rst2 s) (bclosed2 s) (donec2 s) (pipe2 s) (failed2 s) (rstall s)
             | _ => s end)
   (* ---- ClientConn.roundTrip ---- *)
   | JResp =>
@@ -152,7 +164,15 @@ Definition step2 (has_body : bool) (s : h2) (l : label2) : option h2 :=
       | Some c =>
           match d2 s with
           | DAcquire | DHdr | DExpect | DWait => Some (cleanup has_body false (Some (ECause c)) s)
-          | _ => None                        (* writeRequestBody is woken by abort only: KCtxAbort *)
+          | DBody =>
+              (* writeRequestBody is woken by an abort only (KCtxAbort); once the stream is aborted the body
+                 is closed, the write loop ends with errStopReqBodyWrite and writeRequest's final select
+                 may take ctx.Done as well as cs.abort *)
+              match abort2 s, rstall s with
+              | Some _, false => Some (cleanup has_body false (Some (ECause c)) s)
+              | _, _ => None
+              end
+          | _ => None
           end
       | None => None
       end
@@ -161,7 +181,9 @@ Definition step2 (has_body : bool) (s : h2) (l : label2) : option h2 :=
       | Some e =>
           match d2 s with
           (* DAcquire: awaitOpenSlotForStream is woken by abortStream's broadcast *)
-          | DAcquire | DHdr | DExpect | DBody | DWait => Some (cleanup has_body (failed2 s) (Some e) s)
+          | DBody => if rstall s then None      (* blocked inside Request.Body.Read *)
+                     else Some (cleanup has_body (failed2 s) (Some e) s)
+          | DAcquire | DHdr | DExpect | DWait => Some (cleanup has_body (failed2 s) (Some e) s)
           | _ => None
           end
       | None => None
